@@ -16,7 +16,16 @@ program_chains and the evidence's coverage.bounds):
   `traceback` module (oracle; position-marker lines removed) and boltons.tbutils.  Links include code outside
   files: exec'd strings, '<...>' names registered in linecache, and virtual paths whose source comes from a
   PEP 302 loader's get_source (VIRTUAL_LINKS).  tbutils is asked after the linecache entries the oracle
-  left behind were dropped, so it has to find the source lines itself.
+  left behind were dropped, so it has to find the source lines itself.  Besides ExceptionInfo.from_exc_info /
+  TracebackInfo.from_traceback(tb) the argument-less entry points (ExceptionInfo.from_current,
+  TracebackInfo.from_traceback()) are called inside the program's own except block.
+* part `programs-tails` - the same programs whose raising function is itself recursive *on the raising line*
+  (TAILS), so that the traceback ends inside a run of identical entries (with and without a
+  "[Previous line repeated ...]" summary as its last stack line); directed deep runs (DEEP_TAILS).
+* part `programs-edited` - after the program raised, the sources the traceback points to (file on disk, loader
+  source, linecache entry) are edited: each referenced line (and all at once) is replaced by a member of
+  LINE_CLASSES (empty, white space only, trailing white space, ...) or cut off (STRUCTURAL_EDITS); the traceback
+  module (oracle) and tbutils both render the exception against the edited sources.
 """
 import importlib.util
 import itertools
@@ -82,6 +91,13 @@ LOOKALIKE_SOURCES = (
     'File "x.py", line 3, in f',
     'Traceback (most recent call last):', 'ValueError: x')
 
+# Texts in which the interpreter summarises recursion: an entry printed three times followed by
+# "  [Previous line repeated N more times]".  On the tree as of this writing ParsedException.from_string does not know
+# that line (genuine defect, fixes/C16-8-parse-repeat-summary-line.patch): the units are enumerated only when this is
+# set - set it to True once that fix is in the tree.
+REPEAT_SUMMARY_TEXTS = True
+REPEAT_COUNTS = (1, 2, 997)
+
 FRAME_MENU = tuple(itertools.product(PATHS, LINES, FUNCS, SOURCES))        # 160 frame variants
 # reduced menu for the longest texts of the quick tier: every path, function, line and source kind occurs,
 # every source kind with two different (path, function) surroundings
@@ -136,16 +152,27 @@ def pieces():
         mine = build_text(fr, EXC_MENU[3]) + '\n'
         if whole != mine:
             raise RuntimeError('text pieces do not concatenate to the interpreter format: %r vs %r' % (whole, mine))
+        # ... also with a repeat summary: 3 + N equal entries are printed as 3 entries and the summary line
+        for n in REPEAT_COUNTS:
+            fr = [FRAME_MENU[5]] + [FRAME_MENU[0]] * (3 + n) + [FRAME_MENU[127]]
+            ss = traceback.StackSummary.from_list([traceback.FrameSummary(p, l, f, line=s) for p, l, f, s in fr])
+            whole = HEADER + ''.join(ss.format()) + _PIECES['e'][EXC_MENU[3]]
+            mine = build_text([FRAME_MENU[5]] + [FRAME_MENU[0]] * 3 + [FRAME_MENU[127]], EXC_MENU[3],
+                              repeats=[None, None, None, n, None]) + '\n'
+            if whole != mine:
+                raise RuntimeError('repeat summary differs from the interpreter format: %r vs %r' % (whole, mine))
     return _PIECES
 
 
-def build_text(frames, ex, marks=None):
+def build_text(frames, ex, marks=None, repeats=None):
     p = _PIECES
     parts = [HEADER]
     for i, fr in enumerate(frames):
         parts.append(p['f'][tuple(fr)])
         if marks and marks[i] is not None:
             parts.append(MARKERS[marks[i]] + '\n')
+        if repeats and repeats[i] is not None:
+            parts.append('  [Previous line repeated %d more time%s]\n' % (repeats[i], 's' if repeats[i] > 1 else ''))
     parts.append(p['e'][tuple(ex)])
     t = ''.join(parts)
     assert t.endswith('\n')
@@ -161,15 +188,23 @@ class _nobudget:
 
 
 def check_text(case, guard=budget):
-    """case = {'frames': [[path, lineno, func, src], ...], 'exc': [type, msg], 'marks': None | [None|int, ...]}
+    """case = {'frames': [[path, lineno, func, src], ...], 'exc': [type, msg], 'marks': None | [None|int, ...],
+               'repeats': absent | [None|N, ...]  (N: a "[Previous line repeated N more times]" line follows the entry)}
     Returns list of (sig, expected, observed).  `guard` is the hang guard (the shard loops install one guard
     per batch of cases instead, which is cheaper, and pass _nobudget)."""
     from boltons.tbutils import ParsedException
     pieces()
     frames, ex, marks = case['frames'], case['exc'], case.get('marks')
     marked = bool(marks) and any(m is not None for m in marks)
-    text = build_text(frames, ex, marks)
-    fn = 'fn:ParsedException.from_string' + ('(markers)' if marked else '')
+    repeats = case.get('repeats')
+    text = build_text(frames, ex, marks, repeats)
+    fn = 'fn:ParsedException.from_string' + ('(markers)' if marked else '') + ('(repeat-summary)' if repeats else '')
+    if repeats:
+        # the statement leaves open whether the summarised repetitions are listed: accept the printed entries as
+        # they are, or followed by N more copies
+        expanded = []
+        for fr, n in zip(frames, repeats):
+            expanded += [fr] * (1 + (n or 0))
     out = []
     try:
         with guard():
@@ -182,6 +217,8 @@ def check_text(case, guard=budget):
         return [('C16|%s|no_termination' % fn, 'a result', 'no result within %.0f s' % CASE_BUDGET_S)]
     except Exception as e:
         return [('C16|%s|raised' % fn, 'parsed exception', '%s: %s' % (type(e).__name__, e))]
+    if repeats and len(got_frames) == len(expanded) != len(frames):
+        frames = expanded
     if len(got_frames) != len(frames):
         out.append(('C16|%s|frame_count' % fn, len(frames), len(got_frames)))
     else:
@@ -221,7 +258,7 @@ def check_text(case, guard=budget):
         except Exception as e:
             back = '<raised %s: %s>' % (type(e).__name__, e)
         if back != text:
-            out.append(('C16|fn:ParsedException.to_string|text', text, back))
+            out.append(('C16|fn:ParsedException.to_string%s|text' % ('(repeat-summary)' if repeats else ''), text, back))
     return out
 
 
@@ -238,7 +275,28 @@ def text_units(tier):
     else:
         units += [('medium', 3, (i,)) for i in range(len(MEDIUM_MENU))]
         units += [('small', 4, (i,)) for i in range(len(SMALL_MENU))]
-    return units + look_units(tier)
+    return units + look_units(tier) + (repeat_units(tier) if REPEAT_SUMMARY_TEXTS else [])
+
+
+def repeat_units(tier):
+    """('rep', N, index of the repeated entry in the reduced menu)."""
+    return [('rep', n, (i,)) for n in REPEAT_COUNTS for i in range(len(SMALL_MENU))]
+
+
+def repeat_texts(unit):
+    """(frames, repeats) for texts with a run of entry X = SMALL_MENU[i] summarised with N: optionally one other entry
+    before and/or after the run, or a second summarised run of another entry after it."""
+    _, n, (i,) = unit
+    x = SMALL_MENU[i]
+    others = [None] + [fr for fr in SMALL_MENU if fr != x]
+    for before in others:
+        for after in others:
+            frames = ([before] if before else []) + [x, x, x] + ([after] if after else [])
+            reps = ([None] if before else []) + [None, None, n] + ([None] if after else [])
+            yield frames, reps
+    for y in others[1:]:
+        for m in REPEAT_COUNTS:
+            yield [x, x, x, y, y, y], [None, None, n, None, None, m]
 
 
 def look_units(tier):
@@ -287,13 +345,18 @@ def unit_frames(unit):
 def text_shard(unit):
     t = inputs.Tally()
     pieces()
-    for frames in unit_frames(unit):
+    for frames in (repeat_texts(unit) if unit[0] == 'rep' else unit_frames(unit)):
+        repeats = None
+        if unit[0] == 'rep':
+            frames, repeats = frames
         nt = text_nontrivial(frames)
         case = None
         try:
             with budget():                      # one hang guard per batch of 21 texts
                 for ex in EXC_MENU:
                     case = {'part': 'texts', 'frames': frames, 'exc': list(ex), 'marks': None}
+                    if repeats:
+                        case['repeats'] = repeats
                     t.count(nontrivial=nt, sample=case if (nt and ex[1]) else None)
                     for sig, exp, obs in check_text(case, _nobudget):
                         t.bad(sig, case, exp, obs)
@@ -366,6 +429,21 @@ MSG_SHAPE = {'msg': 'one_line', 'empty': 'empty_message', 'keyerror': 'one_line'
              'custom': 'one_line', 'nested': 'one_line', 'assert': 'one_line', 'badstr': 'str_raises'}
 TYPE_SHAPE = {'msg': 'builtin', 'empty': 'builtin', 'keyerror': 'builtin', 'multiline': 'builtin',
               'custom': 'module_class', 'nested': 'nested_class', 'assert': 'builtin', 'badstr': 'module_class'}
+# Shape of the raising function.  'plain': "def fN(): raise ...".  'self<k>': fN calls itself k times *on the line that
+# finally raises*, so the traceback ends with k+1 identical (file, line, function) entries: 3 (the most the interpreter
+# prints in full), 4 ("1 more time"), 6 ("3 more times").
+TAILS = ('self2', 'self3', 'self5')
+TAIL_EXCS = ('msg', 'empty', 'multiline')
+DEEP_TAILS = ('self31', 'self64', 'self257')         # directed (non-exhaustive) bulk sizes: 2**k +- 1 entries
+# Call chains deeper than 1000 frames (recursion limit raised): on the tree as of this writing TracebackInfo keeps only the
+# first 1000 entries when no limit is given (genuine defect, fixes/C16-7-no-default-frame-limit.patch).  Set to True
+# once that fix is in the tree.
+CHAINS_BEYOND_1000_FRAMES = True
+VERY_DEEP_TAILS = ('self997', 'self998', 'self2049')      # below run() and f0(): 1000, 1001, 2052 entries
+# Shape of the catching function run().  'plain': run() calls f0() once.  'self<k>': run() calls itself k times on the
+# line that finally calls f0() (inner activations re-raise, the outermost one catches), so the traceback *begins*
+# with k+1 identical entries.
+HEADS = ('self2', 'self3', 'self5')
 SUBDIR = 'gen pkg \u00e9'                      # modules live under a path with a space and a non-ASCII character
 
 PRELUDE = '''\
@@ -390,9 +468,10 @@ class Outer:
 '''
 
 
-def program_source(chain, exc):
-    """Source text of the module for (chain of link kinds, exception kind).  f0 is called by run();
-    link i is entered through f<i> and calls f<i+1>; the last function raises."""
+def program_source(chain, exc, tail='plain', head='plain'):
+    """Source text of the module for (chain of link kinds, exception kind, shape of the raising function).  f0 is
+    called by run(); link i is entered through f<i> and calls f<i+1>; the last function raises.  run(cb) calls cb
+    inside its except block (while the exception is the one "currently being handled")."""
     src = [PRELUDE]
     n = len(chain)
     for i, kind in enumerate(chain):
@@ -452,16 +531,30 @@ def program_source(chain, exc):
         else:
             raise ValueError(kind)
         src.append('\n\n')
-    src.append('def f%d():\n    %s\n\n\n' % (n, RAISE[exc]))
-    src.append('def run():\n    try:\n        f0()\n    except BaseException as e:\n        return e\n    return None\n')
+    if tail == 'plain':
+        src.append('def f%d():\n    %s\n\n\n' % (n, RAISE[exc]))
+    else:
+        k = int(tail[4:])
+        src.append('def f%d(n=%d):\n    n and f%d(n - 1); %s\n\n\n' % (n, k, n, RAISE[exc]))
+    if head == 'plain':
+        src.append('def run(cb=None):\n    try:\n        f0()\n    except BaseException as e:\n'
+                   '        return (e, cb()) if cb else e\n    return None\n')
+    else:
+        k = int(head[4:])
+        src.append('def run(cb=None, n=%d):\n    try: return run(cb, n - 1) if n else f0()\n'
+                   '    except BaseException as e:\n        if n != %d:\n            raise\n'
+                   '        return (e, cb()) if cb else e\n' % (k, k))
     return ''.join(src)
 
 
-def module_name(chain, exc):
-    return 'c16gen_%s__%s' % ('_'.join(chain) if chain else 'direct', exc)
+def module_name(chain, exc, tail='plain', head='plain'):
+    return 'c16gen_%s__%s%s%s' % ('_'.join(chain) if chain else 'direct', exc, '' if tail == 'plain' else '__' + tail,
+                                  '' if head == 'plain' else '__head' + head)
 
 
-_MARKER_RE = re.compile(r'^ +[~^]+ *$')
+# the third line of a stack entry: indentation, then ~/^ below the failing expression.  When the source line was edited
+# after the code was compiled the recorded columns may lie beyond its end and the interpreter prints the indentation alone.
+_MARKER_RE = re.compile(r'^ +[~^ ]*$')
 
 
 def strip_markers(tb_lines):
@@ -495,13 +588,13 @@ def interpreter_view(e):
             'flat_tb': flat, 'collapsed': '[Previous line repeated' in tb_part}
 
 
-def load_program(root, chain, exc):
+def load_program(root, chain, exc, tail='plain', head='plain'):
     d = os.path.join(root, SUBDIR)
     os.makedirs(d, exist_ok=True)
-    name = module_name(chain, exc)
+    name = module_name(chain, exc, tail, head)
     path = os.path.join(d, name + '.py')
     with open(path, 'w', encoding='utf-8') as f:
-        f.write(program_source(chain, exc))
+        f.write(program_source(chain, exc, tail, head))
     if name in sys.modules:
         raise RuntimeError('module name %s is not unique' % name)
     spec = importlib.util.spec_from_file_location(name, path)
@@ -546,8 +639,28 @@ def first_difference(want, got, window=4):
             {'from_line': lo, 'lines': g[lo:i + window], 'total_lines': len(g)})
 
 
-def compare_program(e, want, exc, contextual=True):
+# members reached through an argument-less entry point -> the member with explicit arguments that it delegates to
+# (a disagreement already reported for the latter, same observable, same case, is not reported again)
+_DELEGATES = {'from_current': 'from_exc_info', 'from_current().get_formatted': 'get_formatted',
+              'from_traceback()': 'from_traceback', 'from_traceback().get_formatted': 'get_formatted'}
+
+
+def grab_current():
+    """Called inside the generated program's except block: build the objects through the entry points that take the
+    exception "currently being handled".  Returns {'ei': (ok, ExceptionInfo | error text), 'tbi': (ok, ...)}."""
+    from boltons import tbutils
+    out = {}
+    for key, fn in (('ei', tbutils.ExceptionInfo.from_current), ('tbi', tbutils.TracebackInfo.from_traceback)):
+        try:
+            out[key] = (True, fn())
+        except Exception as err:
+            out[key] = (False, '%s: %s' % (type(err).__name__, err))
+    return out
+
+
+def compare_program(e, want, exc, contextual=True, handled=None):
     """Compare everything tbutils says about exception e with the interpreter's view `want`.
+    `handled`: result of grab_current() run inside the program's except block (or None).
     Returns list of (sig, expected, observed, tags).  Only disagreements about the stack lines of a traceback
     that the interpreter prints with a "[Previous line repeated ...]" summary carry the tag
     frame_repeated_more_than_3_times (violations are grouped by signature and tag set)."""
@@ -561,7 +674,7 @@ def compare_program(e, want, exc, contextual=True):
         # The Contextual* classes inherit every member compared here: a disagreement they merely inherit
         # (same member, same observable, same case) is the base class's defect and is reported once.
         base = cls.replace('Contextual', '')
-        if (base, member, what) in seen:
+        if (base, member, what) in seen or (base, _DELEGATES.get(member), what) in seen:
             return
         seen.add((cls, member, what))
         out.append(('C16|fn:%s.%s|%s' % (cls, member, what), exp, obs, tags))
@@ -601,7 +714,8 @@ def compare_program(e, want, exc, contextual=True):
             return
         # say which half disagrees: the stack part or the final exception line(s)
         for tb_text in (want['tb'], want['flat_tb']):
-            if got.startswith(tb_text):
+            # (stack lines are indented, the final exception line is not)
+            if got.startswith(tb_text) and not got[len(tb_text):].startswith(' '):
                 compare_tb(cls, member, tb_text)
                 compare_exc_line(cls, member, got[len(tb_text):])
                 return
@@ -649,9 +763,33 @@ def compare_program(e, want, exc, contextual=True):
         if fr != want['frames']:
             report(en, 'to_dict', 'frames', want['frames'], fr)
 
+    def compare_current():
+        ok, tbi = handled['tbi']
+        if not ok:
+            report('TracebackInfo', 'from_traceback()', 'raised', 'a result', tbi)
+        else:
+            ok2, fr = guarded('TracebackInfo', 'from_traceback()', lambda: tb_frames(tbi))
+            if ok2 and fr != want['frames']:
+                report('TracebackInfo', 'from_traceback()', 'frames', want['frames'], fr)
+            ok2, txt = guarded('TracebackInfo', 'from_traceback().get_formatted', tbi.get_formatted)
+            if ok2:
+                compare_tb('TracebackInfo', 'from_traceback().get_formatted', txt)
+        ok, ei = handled['ei']
+        if not ok:
+            report('ExceptionInfo', 'from_current', 'raised', 'a result', ei)
+            return
+        ok2, fr = guarded('ExceptionInfo', 'from_current', lambda: tb_frames(ei.tb_info))
+        if ok2 and fr != want['frames']:
+            report('ExceptionInfo', 'from_current', 'frames', want['frames'], fr)
+        ok2, txt = guarded('ExceptionInfo', 'from_current().get_formatted', ei.get_formatted)
+        if ok2:
+            compare_full('ExceptionInfo', 'from_current().get_formatted', txt)
+
     try:
         with budget():                  # one hang guard per program
             compare_classes(tbutils.TracebackInfo, tbutils.ExceptionInfo)
+            if handled:
+                compare_current()
             if contextual:
                 compare_classes(tbutils.ContextualTracebackInfo, tbutils.ContextualExceptionInfo)
     except _Budget:
@@ -659,20 +797,31 @@ def compare_program(e, want, exc, contextual=True):
     return out
 
 
-def check_program(root, chain, exc, contextual=True):
+def plain_exception(e):
+    if e is None or e.__cause__ is not None or e.__context__ is not None or getattr(e, '__notes__', None):
+        raise RuntimeError('generated program did not raise a plain exception: %r' % (e,))
+    return e
+
+
+def check_program(root, chain, exc, contextual=True, tail='plain', head='plain'):
     """Generate, load and run one program; compare tbutils with the interpreter.
     Returns (list of (sig, expected, observed, tags), info)."""
     sys.dont_write_bytecode = True
-    name, path, mod = load_program(root, chain, exc)
+    name, path, mod = load_program(root, chain, exc, tail, head)
+    old_limit = sys.getrecursionlimit()
+    sys.setrecursionlimit(old_limit + sum(int(x[4:]) for x in (tail, head) if x != 'plain'))
     try:
-        e = mod.run()
-        if e is None or e.__cause__ is not None or e.__context__ is not None or getattr(e, '__notes__', None):
-            raise RuntimeError('generated program did not raise a plain exception: %r' % (e,))
+        # the argument-less entry points delegate to the ones with arguments: exercised wherever the Contextual*
+        # classes are (the shorter chains of each part)
+        e, current = mod.run(grab_current) if contextual else (mod.run(), None)
+        plain_exception(e)
         want = interpreter_view(e)
         cool_linecache()
-        out = compare_program(e, want, exc, contextual)
-        info = {'frames': len(want['frames']), 'collapsed': want['collapsed']}
+        out = compare_program(e, want, exc, contextual, current)
+        info = {'frames': len(want['frames']), 'collapsed': want['collapsed'],
+                'ends_in_summary': want['tb'].endswith(' times]\n') or want['tb'].endswith(' time]\n')}
     finally:
+        sys.setrecursionlimit(old_limit)
         unload_program(name, path)
     return out, info
 
@@ -726,6 +875,177 @@ def reloaded_shard(arg):
     return t
 
 
+# ---- sources edited after the exception was raised --------------------------------------------------------------------
+
+# What a source line that a traceback entry points to may look like *now* (the code was loaded earlier: file saved
+# again under a running process, template source regenerated, ...).  name -> (text of the line, tag)
+LINE_CLASSES = (
+    ('empty', '', 'empty_line'),
+    ('spaces', '        ', 'whitespace_only_line'),
+    ('tab', '\t', 'whitespace_only_line'),
+    ('formfeed', '\x0c', 'whitespace_only_line'),
+    ('unicode_space', '\u00a0\u2003', 'whitespace_only_line'),
+    ('trailing_spaces', '    x = 1    ', 'text_line'),
+    ('tabs_around', '\tx = 1\t', 'text_line'),
+    ('comment', '    # moved', 'text_line'),
+    ('nonascii', '    \u00e9 = "\u00fc: \u20ac"  ', 'text_line'),
+    ('long', '    x = (' + '1, ' * 400 + ')', 'text_line'),
+)
+# 'cut_before': the source ends before the (first) referenced line; 'cut_after_no_newline': it ends with the (last)
+# referenced line, without a line terminator; 'gone': the file was deleted / the loader has no source any more
+STRUCTURAL_EDITS = ('cut_before', 'cut_after_no_newline', 'gone')
+EDIT_OPS = tuple(n for n, _, _ in LINE_CLASSES) + STRUCTURAL_EDITS
+EDIT_TAG = dict([(n, t) for n, _, t in LINE_CLASSES] + [(n, 'source_' + n) for n in STRUCTURAL_EDITS])
+_VIRTUAL_RE = re.compile(r'\.virtual(\d+)\.tmpl\.py$')
+
+
+class Sources:
+    """The editable sources behind the entries of one generated program's traceback: the module file on disk,
+    loader-published virtual sources (module global _vsrc<i>), hand-registered linecache entries."""
+
+    def __init__(self, path, mod):
+        self.path, self.mod = path, mod
+        self.orig = {}
+
+    def kind(self, filename):
+        if filename == self.path:
+            return 'file'
+        m = _VIRTUAL_RE.search(filename)
+        if m and filename.startswith(self.path[:-3]) and hasattr(self.mod, '_vsrc' + m.group(1)):
+            return 'loader'
+        if filename.startswith('<c16gen ') and filename in linecache.cache:
+            return 'linecache'
+        return None
+
+    def read(self, filename):
+        if filename not in self.orig:
+            kind = self.kind(filename)
+            if kind == 'file':
+                with open(filename, 'r', encoding='utf-8', newline='') as f:
+                    self.orig[filename] = (kind, f.read())
+            elif kind == 'loader':
+                self.orig[filename] = (kind, getattr(self.mod, '_vsrc' + _VIRTUAL_RE.search(filename).group(1)))
+            else:
+                self.orig[filename] = (kind, ''.join(linecache.cache[filename][2]))
+        return self.orig[filename][1]
+
+    def write(self, filename, text):
+        kind = self.orig[filename][0]
+        if kind == 'file':
+            if text is None:
+                try:
+                    os.unlink(filename)
+                except OSError:
+                    pass
+            else:
+                with open(filename, 'w', encoding='utf-8', newline='') as f:
+                    f.write(text)
+        elif kind == 'loader':
+            setattr(self.mod, '_vsrc' + _VIRTUAL_RE.search(filename).group(1), text)
+        elif text is None:
+            linecache.cache.pop(filename, None)
+        else:
+            linecache.cache[filename] = (len(text), None, text.splitlines(True), filename)
+
+    def restore(self):
+        for filename, (kind, text) in self.orig.items():
+            self.write(filename, text)
+
+
+def edited_text(text, linenos, op):
+    lines = text.split('\n')
+    if op == 'gone':
+        return None
+    if op == 'cut_before':
+        head = lines[:min(linenos) - 1]
+        return '\n'.join(head) + '\n' if head else ''
+    if op == 'cut_after_no_newline':
+        return '\n'.join(lines[:max(linenos)])
+    new = dict((n, t) for n, t, _ in LINE_CLASSES)[op]
+    for ln in linenos:
+        lines[ln - 1] = new
+    return '\n'.join(lines)
+
+
+def edit_targets(frames, sources):
+    """[(target id, [(filename, lineno), ...])]: one target per distinct editable (file, line) the traceback refers
+    to (id = index of the first entry that does), then 'all' of them at once."""
+    seen, out = {}, []
+    for i, fr in enumerate(frames):
+        key = (fr[0], fr[1])
+        if key not in seen and sources.kind(fr[0]):
+            seen[key] = i
+            out.append((i, [key]))
+    if len(out) > 1:
+        out.append(('all', [k for _, ks in out for k in ks]))
+    return out
+
+
+def check_edited_program(root, chain, exc, contextual=True, only=None, all_only=False):
+    """Run the program, then for every (target, edit op) - or the single pair `only` - edit the sources the traceback
+    points to and compare tbutils with the interpreter on the *same* exception object.
+    Yields (target, op, changed, [(sig, expected, observed, tags)])."""
+    sys.dont_write_bytecode = True
+    name, path, mod = load_program(root, chain, exc)
+    try:
+        e = plain_exception(mod.run())
+        base = interpreter_view(e)
+        sources = Sources(path, mod)
+        gone_done = set()
+        for target, keys in edit_targets(base['frames'], sources):
+            if all_only and target != 'all':
+                continue
+            by_file = {}
+            for fn, ln in keys:
+                by_file.setdefault(fn, []).append(ln)
+            for op in EDIT_OPS:
+                if only is not None and [target, op] != list(only):
+                    continue
+                if op == 'gone' and target != 'all':
+                    # deleting a source is the same edit for every line of it: once per file
+                    if keys[0][0] in gone_done:
+                        continue
+                    gone_done.add(keys[0][0])
+                try:
+                    for fn, lns in by_file.items():
+                        sources.write(fn, edited_text(sources.read(fn), lns, op))
+                    cool_linecache()
+                    want = interpreter_view(e)
+                    cool_linecache()
+                    res = compare_program(e, want, exc, contextual)
+                finally:
+                    sources.restore()
+                yield (target, op, want['full'] != base['full'],
+                       [(sig + ':source-edited', exp, obs, tuple(tags) + (EDIT_TAG[op],)) for sig, exp, obs, tags in res])
+    finally:
+        unload_program(name, path)
+        cool_linecache()
+
+
+def edited_shard(arg):
+    root, items = arg
+    t = inputs.Tally()
+    for chain, all_only in items:
+        for target, op, changed, res in check_edited_program(root, chain, 'msg', len(chain) <= 1, all_only=all_only):
+            case = {'part': 'programs-edited', 'chain': list(chain), 'exc': 'msg', 'contextual': len(chain) <= 1,
+                    'edit': [target, op]}
+            t.count(nontrivial=changed, sample=case if changed else None)
+            for sig, exp, obs, tags in res:
+                t.bad(sig, case, exp, obs, tags=tags)
+    return t
+
+
+def edited_programs(tier):
+    """(chain, all_only): every referenced line separately (and all at once) for the short chains, all at once only
+    for the chains one link longer."""
+    full = 1 if tier == 'quick' else 2
+    out = []
+    for n in range(full + 2):
+        for c in itertools.product(LINKS + VIRTUAL_LINKS, repeat=n):
+            out.append((c, n > full))
+    return out
+
+
 def program_chains(tier):
     """Chains in simplest-first order."""
     maxlen = 3 if tier == 'quick' else 4
@@ -739,18 +1059,48 @@ def program_chains(tier):
         yield from itertools.product(DEEP_LINKS, repeat=n)
 
 
-def program_shard_fn(root, contextual_maxlen):
-    def shard(chains):
+def tail_programs(tier):
+    """(chain, tail, head) triples for the part programs-tails, simplest first: every tail below a plain run(); for
+    the chains one link shorter every head above a plain raising function and above one tail."""
+    maxlen = 2 if tier == 'quick' else 3
+    out = []
+    for n in range(maxlen + 1):
+        for c in itertools.product(LINKS + VIRTUAL_LINKS, repeat=n):
+            out += [(c, tail, 'plain') for tail in TAILS]
+            if n < maxlen:
+                out += [(c, tail, head) for head in HEADS for tail in ('plain', TAILS[1])]
+    return out
+
+
+def deep_tail_programs(tier):
+    out = ([(c, tail, 'plain') for tail in DEEP_TAILS for c in ((), ('plain',), ('rec4',))] +
+           [((), 'plain', DEEP_TAILS[1]), (('plain',), DEEP_TAILS[0], DEEP_TAILS[1])])
+    if CHAINS_BEYOND_1000_FRAMES:
+        out += [(('plain',), tail, 'plain') for tail in VERY_DEEP_TAILS] + [(('plain',), 'plain', VERY_DEEP_TAILS[-1])]
+    return out
+
+
+def program_shard_fn(root, contextual_maxlen, part='programs', excs=EXC_KINDS):
+    """Shard over items that are chains (plain tail and head) or (chain, tail, head) triples."""
+    def shard(items):
         t = inputs.Tally()
-        for chain in chains:
-            for exc in EXC_KINDS:
-                case = {'part': 'programs', 'chain': list(chain), 'exc': exc,
+        for item in items:
+            chain, tail, head = item if part != 'programs' else (item, 'plain', 'plain')
+            for exc in excs:
+                case = {'part': part, 'chain': list(chain), 'exc': exc,
                         'contextual': len(chain) <= contextual_maxlen}
-                res, info = check_program(root, chain, exc, case['contextual'])
-                t.count(nontrivial=len(chain) >= 1, sample=case if len(chain) >= 2 else None)
+                if tail != 'plain':
+                    case['tail'] = tail
+                if head != 'plain':
+                    case['head'] = head
+                res, info = check_program(root, chain, exc, case['contextual'], tail, head)
+                t.count(nontrivial=len(chain) >= 1 or part != 'programs',
+                        sample=case if (len(chain) >= 2 or part != 'programs') else None)
                 t.add('frames_compared', info['frames'])
                 if info['collapsed']:
                     t.add('programs_with_collapsed_repeats', 1)
+                if info['ends_in_summary']:
+                    t.add('programs_whose_last_stack_line_is_a_repeat_summary', 1)
                 for sig, exp, obs, tags in res:
                     t.bad(sig, case, exp, obs, tags=tags)
         return t
@@ -779,9 +1129,19 @@ def run(ctx):
         ctx_maxlen = 2 if ctx.quick() else 3
         inputs.run_shards(ctx, program_shard_fn(root, ctx_maxlen), contiguous(chains, 64), part='programs',
                           rule='at least one link between run() and the raising function')
+        inputs.run_shards(ctx, program_shard_fn(root, 1 if ctx.quick() else 2, 'programs-tails', TAIL_EXCS),
+                          contiguous(tail_programs(ctx.tier), 32), part='programs-tails',
+                          rule='the raising function calls itself on the raising line and/or the catching function on '
+                               'the calling line: the traceback ends / begins with a run of identical entries')
+        inputs.run_shards(ctx, program_shard_fn(root, 0, 'programs-tails-deep', ('msg',)),
+                          contiguous(deep_tail_programs(ctx.tier), 16), part='programs-tails-deep',
+                          rule='directed, not exhaustive: long first / final runs of identical entries')
         rel = [c for c in chains if len(c) <= (1 if ctx.quick() else 2) and 'linecache' not in c and 'exec' not in c]
         inputs.run_shards(ctx, reloaded_shard, [(root, b) for b in contiguous(rel, 16)], part='programs-reloaded',
                           rule='module rendered once, edited on disk, executed and rendered again (tbutils first)')
+        inputs.run_shards(ctx, edited_shard, [(root, b) for b in contiguous(edited_programs(ctx.tier), 32)],
+                          part='programs-edited',
+                          rule='the interpreter renders the exception differently after the edit than before')
     finally:
         shutil.rmtree(root, ignore_errors=True)
     cov = ctx.coverage
@@ -814,17 +1174,45 @@ def run(ctx):
                                   'module and asking tbutils (TracebackInfo on a cold cache, later classes warm)',
                      'exception_kinds': RAISE,
                      'classes': 'TracebackInfo, ExceptionInfo for every program; ContextualTracebackInfo, '
-                                'ContextualExceptionInfo for chains of length <= %d' % (2 if quick else 3)},
+                                'ContextualExceptionInfo for chains of length <= %d' % (2 if quick else 3),
+                     'entry_points': 'TracebackInfo.from_traceback(tb), ExceptionInfo.from_exc_info(type, value, tb); '
+                                     'for chains of length <= %d also, inside the except block of the program: '
+                                     'TracebackInfo.from_traceback(), ExceptionInfo.from_current()'
+                                     % (2 if quick else 3)},
+        'programs-tails': {'tails': TAILS, 'heads': HEADS, 'exception_kinds': TAIL_EXCS,
+                           'chain_length': 'every tail below a plain run(): 0-%d over all links; every head above a plain '
+                                           'raising function and above tail %s: 0-%d over all links'
+                                           % (2 if quick else 3, TAILS[1], 1 if quick else 2)},
+        'programs-tails-deep (directed scenarios, NOT an exhaustive space)': {
+            'programs': [list(map(str, x)) for x in deep_tail_programs(ctx.tier)],
+            'beyond_1000_frames': CHAINS_BEYOND_1000_FRAMES},
+        'programs-edited': {'line_classes': [n for n, _, _ in LINE_CLASSES], 'structural_edits': STRUCTURAL_EDITS,
+                            'sources': 'module file on disk, loader-published virtual source, hand-registered linecache '
+                                       'entry (code run by exec from a plain string has no source to edit)',
+                            'targets': 'chains of length 0-%d: each distinct referenced (file, line) on its own and all '
+                                       'at once; chains of length %d: all at once' % ((1, 2) if quick else (2, 3)),
+                            'exception_kinds': ('msg',)},
     }
+    cov['bounds']['texts']['repeat_summary_lines'] = (
+        'entry x3 + "[Previous line repeated N more times]", N in %s, reduced menu, optionally one other entry before / '
+        'after or a second summarised run' % (REPEAT_COUNTS,) if REPEAT_SUMMARY_TEXTS else
+        'NOT explored (switched off: known defect, see REPEAT_SUMMARY_TEXTS)')
     ctx.assumptions += [
         'oracle for live programs is CPython %d.%d traceback.extract_tb/format_tb/format_exception_only; lines '
-        'consisting of spaces and ~/^ directly below a source line are position markers and are removed'
+        'consisting of spaces and ~/^ (or, for columns beyond the end of an edited line, of spaces alone) directly below '
+        'the source line of a stack entry are position markers and are removed'
         % sys.version_info[:2],
         'traceback texts end without a final line terminator (to_string() returns none)',
         'a recovered line number may be an int or its decimal string; an absent source line may be "" or None',
         'source text is compared after stripping surrounding white space (the traceback module strips it)',
         'messages whose last line looks like "Exception ... ignored" are outside the text menu',
         'virtual code is published through __loader__, through __spec__.loader, or both',
+        'part programs-tails-deep is a finite list of directed scenarios (long runs of one entry), not an enumeration; '
+        'call chains deeper than 1000 frames are %s' % ('included' if CHAINS_BEYOND_1000_FRAMES else
+                                                       'NOT explored (switched off: known defect, see '
+                                                       'CHAINS_BEYOND_1000_FRAMES)'),
+        'programs-edited: the sources are edited after the exception was raised and both the traceback module and '
+        'tbutils render it afterwards, each from a linecache without rebuildable entries',
     ]
 
 
@@ -839,10 +1227,18 @@ def replay(ctx, data):
         return msgs
     root = core.scratch_dir('c16-replay')
     try:
+        if case['part'] == 'programs-edited':
+            msgs = []
+            for target, op, changed, res in check_edited_program(root, tuple(case['chain']), case['exc'],
+                                                                 case.get('contextual', True), only=case['edit']):
+                msgs += ['%s expected=%r observed=%r' % (sig, exp, obs) for sig, exp, obs, tags in res
+                         if only in (None, sig)]
+            return msgs
         if case['part'] == 'programs-reloaded':
             res = check_reloaded_program(root, tuple(case['chain']), case['exc'])
             return ['%s expected=%r observed=%r' % (sig, exp, obs) for sig, exp, obs, tags in res if only in (None, sig)]
-        res, _ = check_program(root, tuple(case['chain']), case['exc'], case.get('contextual', True))
+        res, _ = check_program(root, tuple(case['chain']), case['exc'], case.get('contextual', True),
+                               case.get('tail', 'plain'), case.get('head', 'plain'))
     finally:
         shutil.rmtree(root, ignore_errors=True)
     for sig, exp, obs, tags in res:
